@@ -11,13 +11,18 @@ def main():
     task = json.loads(sys.stdin.read())
     from vf.core import Collector
     from vf import spec as S
+    import time
+    t0 = time.time()
     col = Collector()
     mod = importlib.import_module('vf.checks.%s' % task['prop'].lower())
     try:
         mod.worker(task, col)
     except Exception:  # noqa -- harness failure: report, never a verdict
         col.inconclusive.append('worker crashed: ' + traceback.format_exc()[-1500:])
-    sys.stdout.write('\n@@RESULT@@' + json.dumps(col.result(), default=S._default) + '\n')
+    res = col.result()
+    res['wall_s'] = round(time.time() - t0, 1)
+    res['task'] = {k: v for k, v in task.items() if k in ('shard', 'lo', 'hi', 'kind', 'mode')}
+    sys.stdout.write('\n@@RESULT@@' + json.dumps(res, default=S._default) + '\n')
     sys.stdout.flush()
 
 
